@@ -1034,9 +1034,11 @@ def _apply_solver_cfg(om, model, gobj, cfg):
             return om.DirectSolver(assemble_jac=True)
         if kind == 'krylov':
             s = om.ScipyKrylov(assemble_jac=bool(cfg.get('jac')))
-            s.options['atol'] = 1e-14
-            s.options['rtol'] = 1e-14
+            s.options['atol'] = 1e-10
+            s.options['rtol'] = 1e-10
+            s.options['err_on_non_converge'] = True
             s.options['maxiter'] = 200
+            s.options['restart'] = 200
             s.options['iprint'] = -1
             return s
         if kind == 'lbgs':
@@ -1157,10 +1159,6 @@ def flat_layout(md):
     IVC block per unconnected (auto-IVC) input."""
     off = {}
     n = 0
-    for ci, c in enumerate(md['comps']):
-        for od in c['outs']:
-            off[(ci, od['name'])] = n
-            n += int(np.prod(od['shape']))
     aoff = {}
     for k, cn in enumerate(md['conns']):
         if cn['src'] is None:
@@ -1168,6 +1166,10 @@ def flat_layout(md):
             idef = [i for i in md['comps'][ci]['ins'] if i['name'] == iname][0]
             aoff[k] = n
             n += int(np.prod(idef['shape']))
+    for ci, c in enumerate(md['comps']):
+        for od in c['outs']:
+            off[(ci, od['name'])] = n
+            n += int(np.prod(od['shape']))
     return off, aoff, n
 
 
